@@ -241,6 +241,11 @@ func (ea *effAnalysis) callResultRoots(c *ssa.Call, idx int, fn *ssa.Function, d
 		if hasAnyPrefix(calleeFull(callee), extFreshResult) {
 			return []root{{kind: rkFresh}}
 		}
+		// math/big setters hand back their receiver (`new(big.Int).SetBytes(b)`): the result is what the receiver is
+		if strings.HasPrefix(calleeFull(callee), "(*math/big.Int).") && callee.Signature.Results().Len() == 1 && len(c.Call.Args) > 0 &&
+			types.Identical(callee.Signature.Results().At(0).Type(), c.Call.Args[0].Type()) {
+			return ea.roots(c.Call.Args[0], fn, depth+1)
+		}
 		if callee.Signature.Results().Len() > idx {
 			if _, isBasic := callee.Signature.Results().At(idx).Type().Underlying().(*types.Basic); isBasic {
 				return []root{{kind: rkFresh}}
@@ -323,6 +328,11 @@ func (ea *effAnalysis) sharedWrites(fn *ssa.Function, depth int, stack map[*ssa.
 				// written unless the method is a known reader
 				m := cc.Method.Name()
 				switch m {
+				case "NewPrivateKey", "NewPublicKey":
+					// crypto/ecdh.Curve constructors: build a fresh key from bytes, the curve object is immutable
+					if !strings.HasSuffix(cc.Value.Type().String(), "crypto/ecdh.Curve") {
+						addRoots(ins, "unknown interface method "+m, cc.Value)
+					}
 				case "Size", "Algorithm", "ComputeHash", "Verify", "Sign", "Encode", "EncodeCompressed", "Equals", "String", "Error", "Params", "PublicKey", "IsOnCurve", "Clone", "Bytes":
 					// read-only by interface contract (ComputeHash/Sign/Verify/PublicKey are themselves entry points checked separately)
 					if m == "PublicKey" {
